@@ -20,8 +20,8 @@ def record(workdir, features=(), timeout=2400):
     env = dict(os.environ)
     env["CARGO_TARGET_DIR"] = TARGET
     env["CARGO_NET_OFFLINE"] = "true"
-    env["RUSTFLAGS"] = "--cfg hbs_lms_verif"
-    env["RUSTDOCFLAGS"] = "--cfg hbs_lms_verif"
+    env["RUSTFLAGS"] = "--cfg hbs_lms_verif --cfg hbs_lms_verif_trace"
+    env["RUSTDOCFLAGS"] = "--cfg hbs_lms_verif --cfg hbs_lms_verif_trace"
     env["HBS_LMS_VERIF_TRACE"] = trace
     repo = os.environ.get("VERIF_REPO") or os.environ.get("VP_RUN_REPO") or "/repo"
     cmd = ["cargo", "test", "--workspace", "--no-fail-fast", "--offline"]
@@ -31,7 +31,11 @@ def record(workdir, features=(), timeout=2400):
     out = p.stdout.decode(errors="replace")
     failed = [l for l in out.splitlines() if l.startswith("test ") and l.rstrip().endswith("FAILED")]
     if "error: could not compile" in out or "error[" in out:
-        raise ToolError("the repository's test suite does not build with --cfg hbs_lms_verif: " + out[-2000:])
+        # The tracing blocks sit inside hss_keygen / hss_sign_core / hss_verify and call them recursively: a change to the
+        # signature of one of them breaks the traced build although the library itself (and the harness, which does not use
+        # this flag) builds.  On the unchanged tree the traced build works; if it does not, this recorder has nothing to say
+        # and the other phases of the check decide.
+        return [], {"skipped": "the test suite does not build with --cfg hbs_lms_verif_trace on this tree", "events": 0}
     events = []
     if os.path.exists(trace):
         for line in open(trace):
@@ -40,7 +44,10 @@ def record(workdir, features=(), timeout=2400):
                 events.append(json.loads(line))      # a torn line would be a defect of the hook: let it raise
     if not events:
         raise ToolError("the repository's test suite produced no trace events: " + out[-1500:])
-    return events, {"suite_exit": p.returncode, "suite_failed_tests": failed[:10], "events": len(events)}
+    # a test with a hasher of its own (none today) is outside the six variants the specification defines
+    custom = [e for e in events if str(e.get("alg", "")).startswith("custom:")]
+    events = [e for e in events if not str(e.get("alg", "")).startswith("custom:")]
+    return events, {"suite_exit": p.returncode, "suite_failed_tests": failed[:10], "events": len(events), "custom_hasher_events_skipped": len(custom)}
 
 
 def groups(ctx, features=()):
